@@ -27,7 +27,7 @@ def fdet(m):
 
 def rand_matrix(rng, n, kind=None):
     """invertible exact matrix: generic integer / affine / projective with small entries / diagonal scale"""
-    kind = kind or rng.choice(["generic", "generic", "affine", "shear", "scaled", "tiny-perspective"])
+    kind = kind or rng.choice(["generic", "generic", "affine", "shear", "scaled", "tiny-perspective", "translation-w", "diag-w", "perspective-only", "block-w"])
     while True:
         m = [[Fraction(rng.randint(-3, 3)) for _ in range(n)] for _ in range(n)]
         if kind == "affine":
@@ -44,6 +44,28 @@ def rand_matrix(rng, n, kind=None):
             m[-1][rng.randrange(n - 1)] = Fraction(rng.choice([1, -1, 3]), 2 ** 28)
             if rng.random() < 0.5:
                 m[0][1] = Fraction(rng.randint(-2, 2))
+        elif kind in ("translation-w", "diag-w", "perspective-only", "block-w"):
+            # matrices with a special block structure (what the constructors of the library produce, but with a corner entry w != 1
+            # or a perspective row): any shortcut that recognises "a translation", "a linear map", "an affine map" by part of the
+            # structure only is exercised on its boundary
+            m = [[Fraction(int(i == j)) for j in range(n)] for i in range(n)]
+            w = Fraction(rng.choice([2, 4, -1, -3, 1]), rng.choice([1, 2]))
+            if kind == "translation-w":
+                for i in range(n - 1):
+                    m[i][-1] = Fraction(rng.randint(-3, 3))
+                m[-1][-1] = w if w != 1 else Fraction(2)
+            elif kind == "diag-w":
+                m[-1][-1] = w if w != 1 else Fraction(4)
+            elif kind == "perspective-only":
+                for i in range(n - 1):
+                    for j in range(n - 1):
+                        m[i][j] = Fraction(rng.randint(-2, 2)) if rng.random() < 0.5 else m[i][j]
+                m[-1][rng.randrange(n - 1)] = Fraction(rng.choice([1, -1, 2]), rng.choice([2, 4, 5]))
+            else:
+                for i in range(n - 1):
+                    for j in range(n - 1):
+                        m[i][j] = Fraction(rng.randint(-3, 3))
+                m[-1][-1] = w
         elif kind == "scaled":
             lam = Fraction(rng.choice([2, -1, -3, 5]), rng.choice([1, 2]))
             m = [[lam * x for x in row] for row in m]
